@@ -1,0 +1,32 @@
+// Copyright 2019 The Scriggo Authors. All rights reserved.
+// Use of this source code is governed by a BSD-style
+// license that can be found in the LICENSE file.
+
+//go:build verif
+
+package scriggo
+
+import (
+	"github.com/open2b/scriggo/internal/compiler"
+	"github.com/open2b/scriggo/internal/runtime"
+)
+
+// SimSlot and SimHooks expose the simulation hooks of the virtual machine.
+// They exist only with the verif build tag.
+type (
+	SimSlot  = runtime.SimSlot
+	SimHooks = runtime.SimHooks
+)
+
+// SetSimHooks sets the simulation hooks of the virtual machine. It must be
+// called when no program or template is running.
+func SetSimHooks(h *SimHooks) {
+	runtime.SetSimHooks(h)
+}
+
+// SetSimTokenChanCap sets the capacity of the channel between the lexer and
+// the parser; a negative value restores the default. It must be called when
+// no build is in progress.
+func SetSimTokenChanCap(n int) {
+	compiler.SetSimTokenChanCap(n)
+}
